@@ -38,7 +38,7 @@ CONTRACTS = {
     "ge_polyhedron.A_min": {"props": ["C11", "C12"], "why": "entry-wise min of a_ij*x_j over the box: lo*[A>0]*A + hi*[A<0]*A"},
     "ge_polyhedron.row_bounds": {"props": ["C11", "C12"], "why": "(Σ min(lo*A,hi*A) - b, Σ max(lo*A,hi*A) - b)"},
     "ge_polyhedron.n_row_combinations": {"props": ["C12"], "why": "Π over non-zero coefficients of (hi - lo + 1)"},
-    "ge_polyhedron.tighten_column_bounds": {"props": ["C11", "C12"],
+    "ge_polyhedron.tighten_column_bounds": {"props": ["C11", "C12"], "domain": ["self.shape[0] != 0", "self.A.shape[0] != 0", "len(self) != 0"],
                                             "why": "implied bounds a_j x_j >= b - Σ_{k≠j} max(a_k x_k): floor(-(row_ub - A_max)/A), "
                                                    "lower candidates where A>0, upper where A<0, combined by max/min, written only if tighter"},
     # ---- reduction (C11) -------------------------------------------------------------------------------------
@@ -60,7 +60,7 @@ CONTRACTS = {
     "ge_polyhedron_config.__new__": {"props": ["C14", "C15", "C17"], "why": "default prio vector attached; default -1 per A column"},
     "ge_polyhedron_config._vectors_from_prios": {"props": ["C14", "C15"],
                                                  "why": "per request [default row, user row (0 where unnamed)] stacked in that order, shadow-compressed on axis 0"},
-    "ge_polyhedron_config.select": {"props": ["C14", "C15"], "why": "objectives over A columns; solver gets the full polyhedron; ids zipped with solution; None -> {}; exceptions -> InfeasibleError"},
+    "ge_polyhedron_config.select": {"props": ["C14", "C15"], "raise_class": ["C15"], "why": "objectives over A columns; solver gets the full polyhedron; ids zipped with solution; None -> {}; exceptions -> InfeasibleError"},
     "ge_polyhedron_config.to_b64": {"props": ["C17"], "why": "[array, default_prio_vector, variables, index, dtype] pickled"},
     "ge_polyhedron_config.from_b64": {"props": ["C17"], "why": "positional splat into __new__"},
 }
@@ -239,6 +239,8 @@ class ge_polyhedron(variable_ndarray):
             return numpy.array((numpy.matmul(A, points.T) < b.reshape(-1, 1)).any(axis=0))
         elif points.ndim == 1:
             return ge_polyhedron.separable(self, numpy.array([points]))[0]
+        else:
+            return __unspecified__       # C19 quantifies over points arrays of dimension 1, 2 and 3
 
     def ineq_separate_points(self, points):
         if points.ndim > 2:
@@ -248,6 +250,8 @@ class ge_polyhedron(variable_ndarray):
             return boolean_ndarray((numpy.matmul(A, points.T) < b.reshape(-1, 1)).any(axis=1))
         elif points.ndim == 1:
             return ge_polyhedron.ineq_separate_points(self, numpy.array([points]))
+        else:
+            return __unspecified__       # C19 quantifies over points arrays of dimension 1, 2 and 3
 
     def ineqs_satisfied(self, points):
         if points.ndim > 2:
@@ -256,6 +260,8 @@ class ge_polyhedron(variable_ndarray):
             return boolean_ndarray((numpy.matmul(self.A, points.T) >= self.b[:, None]).all(axis=0))
         elif points.ndim == 1:
             return ge_polyhedron.ineqs_satisfied(self, numpy.array([points]))[0] == 1
+        else:
+            return __unspecified__       # C19 quantifies over points arrays of dimension 1, 2 and 3
 
 
 class integer_ndarray(variable_ndarray):
